@@ -96,6 +96,10 @@ pub fn generate_partial_witness<
         pending_generator_indices = next_pending_generator_indices;
     }
 
+    #[cfg(feature = "verif_hooks")]
+    if remaining_generators != 0 && crate::plonk::verif_knobs::get().skip_witness_checks {
+        return Ok(witness);
+    }
     if remaining_generators != 0 {
         return Err(anyhow!("{} generators weren't run", remaining_generators));
     }
